@@ -48,6 +48,7 @@ NFor(kind, kv, vv, coll, keyE, valE, condE) == N("for", kind, vv, kv, <<coll, ke
 NCall(fn, expand, args) == N("call", fn, "", IF expand THEN 1 ELSE 0, args)
 NTpl(kind, parts) == N("tpl", kind, "", 0, parts)
 NTLit(s)       == N("tlit", s, "", 0, <<>>)
+NHLine(indent, parts) == N("hline", "", "", indent, parts)
 \* strip flags: bit 0 = "~" right after the opening marker (strips the literal before),
 \*              bit 1 = "~" right before the closing marker (strips the literal after)
 NInterp(strip, x) == N("interp", "", "", strip, <<x>>)
@@ -192,11 +193,11 @@ IterKeys(c) ==
 
 ---------------------------------------------------------------------------
 (* Template literal tables: whitespace trimming for strip markers.         *)
-TrimRTab == [s \in {"", "a", " a ", "a ", " a", " ", "b", "x", "\n", "a\n", " \n "} |->
-    CASE s = " a " -> " a" [] s = "a " -> "a" [] s = " " -> "" [] s = "\n" -> "" [] s = "a\n" -> "a"
+TrimRTab == [s \in {"", "a", " a ", "a ", " a", " ", "  ", "   ", "b", "x", "\n", "a\n", " \n "} |->
+    CASE s = " a " -> " a" [] s = "a " -> "a" [] s = " " -> "" [] s = "  " -> "" [] s = "   " -> "" [] s = "\n" -> "" [] s = "a\n" -> "a"
       [] s = " \n " -> "" [] OTHER -> s]
-TrimLTab == [s \in {"", "a", " a ", "a ", " a", " ", "b", "x", "\n", "a\n", " \n "} |->
-    CASE s = " a " -> "a " [] s = " a" -> "a" [] s = " " -> "" [] s = "\n" -> "" [] s = " \n " -> ""
+TrimLTab == [s \in {"", "a", " a ", "a ", " a", " ", "  ", "   ", "b", "x", "\n", "a\n", " \n "} |->
+    CASE s = " a " -> "a " [] s = " a" -> "a" [] s = " " -> "" [] s = "  " -> "" [] s = "   " -> "" [] s = "\n" -> "" [] s = " \n " -> ""
       [] OTHER -> s]
 
 ---------------------------------------------------------------------------
@@ -566,9 +567,36 @@ EvalTJoin(e, env) ==
          ELSE IF a.unk THEN R(Unk(TStr), a.err)
          ELSE R(Str(a.s), a.err)
 
+\* --- heredoc templates ---
+\* sub = lines; line = N("hline", "", "", indent, parts) with parts literal (no newline) or interp.
+\* The template text is, per line, the indentation, the parts and a newline.  For a flush heredoc
+\* ("<<-") the smallest indentation of the non-blank lines is removed from every non-blank line;
+\* this is computed on the static text, so an interpolated value cannot change it
+\* (DEV_FlushLineStartingWithInterpolationCountsZero: a line that starts with an interpolation
+\* has indentation 0, as the implementation reads the specification's "line-leading literal").
+Spaces(n) == CASE n = 0 -> "" [] n = 1 -> " " [] n = 2 -> "  " [] n = 3 -> "   " [] n = 4 -> "    " [] OTHER -> "#oom"
+IsBlankLine(ln) == Len(ln.sub) = 0
+MinIndent(lines) ==
+    LET nb == {i \in 1..Len(lines) : ~IsBlankLine(lines[i])} IN
+    IF nb = {} THEN 0 ELSE CHOOSE m \in {lines[i].n : i \in nb} : \A i \in nb : m <= lines[i].n
+
+RECURSIVE HeredocParts(_, _, _)
+HeredocParts(lines, i, cut) ==
+    IF i > Len(lines) THEN <<>>
+    ELSE LET ln == lines[i]
+             ind == IF IsBlankLine(ln) THEN ln.n ELSE ln.n - cut
+         IN (IF ind > 0 THEN <<NTLit(Spaces(ind))>> ELSE <<>>) \o ln.sub \o <<NTLit("\n")>> \o HeredocParts(lines, i + 1, cut)
+
+EvalHeredoc(e, env) ==
+    LET cut == IF e.s = "hf" THEN MinIndent(e.sub) ELSE 0
+        parts == HeredocParts(e.sub, 1, cut)
+    IN IF \E i \in 1..Len(parts) : parts[i].k = "tlit" /\ parts[i].s = "#oom" THEN ROom
+       ELSE EvalTplBody(parts, FALSE, FALSE, env)
+
 EvalTpl(e, env) ==
+    IF e.s \in {"h", "hf"} THEN EvalHeredoc(e, env)
     \* a template that is exactly one interpolation denotes that expression's value unchanged
-    IF Len(e.sub) = 1 /\ e.sub[1].k = "interp" THEN Eval(e.sub[1].sub[1], env)
+    ELSE IF Len(e.sub) = 1 /\ e.sub[1].k = "interp" THEN Eval(e.sub[1].sub[1], env)
     ELSE EvalTplBody(e.sub, FALSE, FALSE, env)
 
 \* --- the evaluator ---
